@@ -950,16 +950,168 @@ def r9(ctx, prog):
                                   "index; on this path it holds the float "
                                   "%s (IndexError) -- use //" %
                                   (nm, norm(d)), node=s)
-    # extent / pixels / components come from the island's own cut-out
-    isl = [s for s in walk_no_nested(rc.node) if isinstance(s, ast.Assign)
-           and norm(s.targets[0]) in ("source.extent", "source.pixels",
-                                      "source.components")]
-    vals = {norm(s.targets[0]): norm(s.value) for s in isl}
-    ok = vals.get("source.extent", "").replace(" ", "") == \
-        "[xmin,xmax,ymin,ymax]" and \
-        "kappa_sigma" in vals.get("source.pixels", "") and \
-        vals.get("source.components", "").replace(" ", "") == "j+1"
-    ctx.check("C03-R9", rc, "island row fields %s" % vals, ok,
-              "extent/pixels/components of the island row must come from "
-              "the island's own offsets, its thresholded pixels and the "
-              "component count", node=isl[0] if isl else rc.node)
+    _island_row(ctx, rc)
+
+
+def _strip_int(e):
+    while isinstance(e, ast.Call) and norm(e.func) in ("int", "np.int64") \
+            and len(e.args) == 1:
+        e = e.args[0]
+    return e
+
+
+def _island_row(ctx, rc):
+    """Island row vs the detected pixels, by role: the island object is the
+    one built by IslandSource(); (row lo, row hi, col lo, col hi) are the
+    names unpacked from island_data.offsets; the cut-out is the name bound
+    to island_data.i; the thresholded pixels are the array selected from the
+    cut-out by np.where(..., cut-out, nan)."""
+    from ..regionmodel import linear
+    from .c13 import parity
+    R = "C03-R9"
+    body = list(walk_no_nested(rc.node))
+    isl = [s.targets[0].id for s in body if isinstance(s, ast.Assign)
+           and isinstance(s.value, ast.Call) and len(s.targets) == 1
+           and isinstance(s.targets[0], ast.Name)
+           and norm(s.value.func).split(".")[-1] == "IslandSource"]
+    offs = [s for s in body if isinstance(s, ast.Assign)
+            and isinstance(s.targets[0], (ast.Tuple, ast.List))
+            and len(s.targets[0].elts) == 4
+            and isinstance(s.value, ast.Attribute)
+            and s.value.attr == "offsets"]
+    cut = [s.targets[0].id for s in body if isinstance(s, ast.Assign)
+           and isinstance(s.targets[0], ast.Name)
+           and isinstance(s.value, ast.Attribute) and s.value.attr == "i"
+           and norm(s.value.value) == "island_data"]
+    if not isl or len(offs) != 1 or len(cut) != 1:
+        raise AnalysisError("C03-R9: island object / offsets unpack / "
+                            "cut-out of result_to_components not found")
+    isl, cut = isl[0], cut[0]
+    roles = [norm(e) for e in offs[0].targets[0].elts]
+    noise = [s.targets[0].id for s in body if isinstance(s, ast.Assign)
+             and isinstance(s.targets[0], ast.Name)
+             and isinstance(s.value, ast.Subscript)
+             and norm(s.value.value).endswith("rmsimg")]
+    # thresholded pixels of the island summary
+    sel = []
+    for s in body:
+        if isinstance(s, ast.Assign) and isinstance(s.targets[0], ast.Name) \
+                and isinstance(s.value, ast.Call) \
+                and norm(s.value.func) in ("np.where", "numpy.where") \
+                and len(s.value.args) == 3 \
+                and norm(s.value.args[1]) == cut \
+                and norm(s.value.args[2]) in ("np.nan", "numpy.nan"):
+            sel.append(s)
+    ctx.floor(R, len(sel), 1, "thresholded pixel selections of the island "
+              "summary")
+    env = {cut: "O"}
+    env.update({n_: "E" for n_ in noise})
+    for s in sel:
+        pk = parity(s.value.args[0], env, None)
+        ctx.check(R, rc, "island pixels " + norm(s, 70), pk == "E",
+                  "the pixels counted and summed for the island row are "
+                  "selected by this condition, which is not unchanged under "
+                  "negation of the data: a negative island (detected on "
+                  "|signal-to-noise|) gets a different pixel count / peak "
+                  "pixel / integrated flux than the pixels that were "
+                  "detected", node=s)
+    selnames = {s.targets[0].id for s in sel}
+
+    def stores(attr):
+        out = []
+        for s in body:
+            if isinstance(s, ast.Assign):
+                for t in s.targets:
+                    ts = t.elts if isinstance(t, (ast.Tuple, ast.List)) \
+                        else [t]
+                    for k_, e in enumerate(ts):
+                        if isinstance(e, ast.Attribute) and e.attr == attr \
+                                and norm(e.value) == isl:
+                            out.append((s, k_ if len(ts) > 1 else None))
+        return out
+    n = 0
+    for s, _ in stores("extent"):
+        n += 1
+        v = s.value
+        got = [norm(_strip_int(e)) for e in v.elts] \
+            if isinstance(v, (ast.List, ast.Tuple)) else None
+        if got is None and isinstance(v, ast.Attribute) and \
+                v.attr == "offsets":
+            got = roles
+        if got is None:
+            ctx.unknown_site(R, rc, s, "extent is not a literal list of the "
+                             "offsets")
+            continue
+        ctx.check(R, rc, "island extent " + norm(s, 60), got == roles,
+                  "the extent of the island row must be (row lo, row hi, "
+                  "col lo, col hi) of the island's own cut-out, i.e. %s in "
+                  "the order island_data.offsets provides them; got %s" %
+                  (roles, got), node=s)
+    for s, _ in stores("pixels"):
+        n += 1
+        fin = [c for c in ast.walk(s.value) if isinstance(c, ast.Call)
+               and norm(c.func).split(".")[-1] in ("isfinite", "isnan",
+                                                   "count_nonzero")]
+        names = {x.id for x in ast.walk(s.value) if isinstance(x, ast.Name)}
+        arrays = names & ({cut} | selnames | set(noise) | {"bkg"})
+        ok = bool(fin) and arrays and arrays <= selnames
+        ctx.check(R, rc, "island pixel count " + norm(s, 70), ok,
+                  "the pixel count of the island row must count the finite "
+                  "entries of the thresholded island pixels (%s), not of "
+                  "%s" % (sorted(selnames), sorted(arrays - selnames) or
+                          "nothing"), node=s)
+    loops = [l for l in rc.node.body if isinstance(l, ast.For)
+             and isinstance(l.target, ast.Name)
+             and isinstance(l.iter, ast.Call) and norm(l.iter.func) == "range"
+             and "components" in norm(l.iter)]
+    for s, _ in stores("components"):
+        n += 1
+        if not loops:
+            raise AnalysisError("C03-R9: component loop not found")
+        lv = loops[0].target.id
+        bound = norm(_strip_int(loops[0].iter.args[-1]))
+        if norm(_strip_int(s.value)) == bound:
+            ok = True
+        else:
+            lf = linear(s.value, lv)
+            if lf is None:
+                ctx.unknown_site(R, rc, s, "component count of the island "
+                                 "row not a linear form of the loop counter")
+                continue
+            ok = tuple(lf[:2]) == (1, 1)
+        ctx.check(R, rc, "island component count " + norm(s, 60), ok,
+                  "after the component loop the counter %s holds the LAST "
+                  "index; the number of components is %s + 1" % (lv, lv),
+                  node=s)
+    # widths of the bounding box: x is the first (row) axis of the cut-out
+    for attr, ax in (("x_width", 0), ("y_width", 1)):
+        for s, k_ in stores(attr):
+            n += 1
+            v = s.value
+            if k_ is not None and isinstance(v, ast.Attribute) and \
+                    v.attr == "shape" and norm(v.value) in ({cut} | selnames):
+                got = k_
+            elif k_ is None and isinstance(v, ast.Subscript) and \
+                    isinstance(v.value, ast.Attribute) and \
+                    v.value.attr == "shape" and \
+                    isinstance(v.slice, ast.Constant):
+                got = v.slice.value
+            elif k_ is None and isinstance(v, ast.BinOp) and \
+                    isinstance(v.op, ast.Sub) and \
+                    norm(_strip_int(v.left)) in roles and \
+                    norm(_strip_int(v.right)) in roles:
+                a_, b_ = (roles.index(norm(_strip_int(v.left))),
+                          roles.index(norm(_strip_int(v.right))))
+                got = ax if (a_, b_) == (2 * ax + 1, 2 * ax) else 1 - ax
+            else:
+                ctx.unknown_site(R, rc, s, "width of the island box not "
+                                 "read from the cut-out shape")
+                continue
+            ctx.check(R, rc, "island %s " % attr + norm(s, 60), got == ax,
+                      "x_width / y_width are the extents of the island box "
+                      "along the first / second axis of the cut-out (the "
+                      "same x/y convention as extent and the pixel "
+                      "positions); %s is taken from axis %s" % (attr, got),
+                      node=s)
+    ctx.floor(R, n, 5, "island row fields (extent, pixels, components, "
+              "x_width, y_width)")
